@@ -137,14 +137,39 @@ def awkward_geometry(series, r):
 LAYOUTS = ['c', 'c', 'f', 'transposed', 'view', 'negstride', 'readonly', 'readonly', 'readonly_view', 'bigendian']
 
 
+def fnum(r, x):
+    """`num` for parameters that are documented (and checked) to be `float`: window centers / widths, rescale parameters"""
+    v = num(r, x)
+    return v if isinstance(v, float) else float(v)
+
+
+NUM_TYPES = {}      # histogram of the scalar types drawn by `num` (read by the harness)
+
+
 def num(r, x):
-    """a number for a DS / FD / FL valued argument: as given, or perturbed so that its repr has 17-18 significant digits"""
+    """a number for a DS / FD / FL valued argument: as given, or perturbed so that its repr has 17-18 significant digits - as a
+    Python float or as a numpy scalar (np.float64, np.float32 - whose `str` is short although `float(v)` has 17 digits, e.g.
+    np.float32(10.1) - and, for whole numbers, np.int32 / np.int64 / int)"""
     k = r.random()
     if k < 0.5:
-        return float(x)
-    if k < 0.75:
-        return float(x) + 1.0 / 3.0
-    return float(x) * (1.0 + 2.0 ** -30) + 1e-7
+        v = float(x)
+    elif k < 0.75:
+        v = float(x) + 1.0 / 3.0
+    else:
+        v = float(x) * (1.0 + 2.0 ** -30) + 1e-7
+    t = r.random()
+    if t < 0.55:
+        out = v
+    elif t < 0.7:
+        out = np.float64(v)
+    elif t < 0.9:
+        out = np.float32(round(v, 1) + 0.1) if k < 0.5 else np.float32(v)     # x.1 values: short str, long float()
+    elif float(x) == int(x) and k < 0.5:
+        out = r.choice([np.int32, np.int64, int])(int(x))
+    else:
+        out = v
+    NUM_TYPES[type(out).__name__] = NUM_TYPES.get(type(out).__name__, 0) + 1
+    return out
 
 
 
@@ -334,14 +359,14 @@ def subject_pm(r, nr):
                                                     value_range=(-100.0, 100.0), intercept=0, slope=1))
         elif r.random() < 0.5:
             maps.append(hd.pm.RealWorldValueMapping(lut_label=f'm{k}', lut_explanation='feature', unit=codes.UCUM.NoUnits,
-                                                    value_range=(0, 255), intercept=num(r, 1.5), slope=num(r, 2.0)))
+                                                    value_range=(0, 255), intercept=fnum(r, 1.5), slope=fnum(r, 2.0)))
         else:
             maps.append(hd.pm.RealWorldValueMapping(lut_label=f'm{k}', lut_explanation='feature', unit=codes.UCUM.NoUnits,
                                                     value_range=(0, 255), lut_data=[float(v) * 0.5 for v in range(256)]))
     # 2-D / 3-D arrays take a flat list (all mappings apply to the one channel), 4-D arrays one list per channel
     rwvm = [[m] for m in maps] if arr.ndim == 4 else maps
     kw = dict(_ids(r), **_equip())
-    wc, ww = num(r, 100), num(r, 200)
+    wc, ww = fnum(r, 100), fnum(r, 200)
 
     more = {'plane_positions': explicit_positions} if explicit_positions is not None else {}
 
@@ -416,7 +441,7 @@ def _measurement_report(r, nr, src, use_3d, want_groups=False):
         else:
             region = sr.ImageRegion(graphic_type=sr.GraphicTypeValues.POLYLINE, graphic_data=pts,
                                     source_image=sr.SourceImageForRegion.from_source_image(img))
-        meas = [sr.Measurement(name=codes.SCT.AreaOfDefinedRegion, value=num(r, float(r.randint(1, 99)) / 4),
+        meas = [sr.Measurement(name=codes.SCT.AreaOfDefinedRegion, value=float(num(r, float(r.randint(1, 99)) / 4)),   # (Measurement documents int / float only)
                                unit=codes.UCUM.SquareMillimeter,
                                tracking_identifier=sr.TrackingIdentifier(uid=new_uid()),
                                properties=sr.MeasurementProperties(
@@ -572,16 +597,16 @@ def subject_pr(r, nr):
                 modality_lut=hd.ModalityLUT(lut_type=hd.RescaleTypeValues.HU, first_mapped_value=0, lut_data=lut_arr))
         elif r.random() < 0.5:
             extra['modality_lut_transformation'] = hd.ModalityLUTTransformation(
-                rescale_intercept=num(r, -1024.0), rescale_slope=num(r, 2.0), rescale_type='HU')
+                rescale_intercept=fnum(r, -1024.0), rescale_slope=fnum(r, 2.0), rescale_type='HU')
         if r.random() < 0.6:
             if r.random() < 0.5:
                 if r.random() < 0.5:
                     extra['voi_lut_transformations'] = [pr.SoftcopyVOILUTTransformation(
-                        window_center=num(r, 40.0), window_width=num(r, 400.0))]
+                        window_center=fnum(r, 40.0), window_width=fnum(r, 400.0))]
                 else:       # several windows (lists / tuples of values)
                     mk = r.choice([list, tuple])
                     extra['voi_lut_transformations'] = [pr.SoftcopyVOILUTTransformation(
-                        window_center=mk([num(r, 40.0), num(r, 50.0)]), window_width=mk([num(r, 400.0), num(r, 300.0)]),
+                        window_center=mk([fnum(r, 40.0), fnum(r, 50.0)]), window_width=mk([fnum(r, 400.0), fnum(r, 300.0)]),
                         window_explanation=mk(['soft', 'bone']))]
             else:
                 extra['voi_lut_transformations'] = [pr.SoftcopyVOILUTTransformation(
@@ -648,7 +673,7 @@ def subject_pr_multi(r, nr):
     voi = []
     for g in groups:
         ref = hd.ReferencedImageSequence(referenced_images=[img], referenced_frame_number=g if len(g) > 1 or r.random() < 0.5 else g[0])
-        voi.append(pr.SoftcopyVOILUTTransformation(window_center=num(r, 40.0), window_width=num(r, 400.0), referenced_images=ref))
+        voi.append(pr.SoftcopyVOILUTTransformation(window_center=fnum(r, 40.0), window_width=fnum(r, 400.0), referenced_images=ref))
 
     def call(referenced_images, voi_lut_transformations):
         return pr.GrayscaleSoftcopyPresentationState(referenced_images=referenced_images,
@@ -830,14 +855,16 @@ def subject_content(r, nr):
             *_measurement_report(r, nr, images, use_3d=False, want_groups=True),
             *_measurement_report(r, nr, images, use_3d=True, want_groups=True),
             sr.ImageLibraryEntryDescriptors(i0, additional_descriptors=extra_items),
-            hd.VOILUTTransformation(window_center=seq_kind([num(r, 40.0), num(r, 50.0), num(r, 60.0)]),
-                                    window_width=seq_kind([num(r, 400.0), num(r, 300.0), num(r, 200.0)]),
+            hd.VOILUTTransformation(window_center=seq_kind([fnum(r, 40.0), fnum(r, 50.0), fnum(r, 60.0)]),
+                                    window_width=seq_kind([fnum(r, 400.0), fnum(r, 300.0), fnum(r, 200.0)]),
                                     window_explanation=seq_kind(['a', 'b', 'c'])),
-            hd.VOILUTTransformation(window_center=num(r, 40.0), window_width=num(r, 400.0)),
-            hd.ModalityLUTTransformation(rescale_intercept=num(r, -3.0), rescale_slope=num(r, 0.5), rescale_type='US'),
+            hd.VOILUTTransformation(window_center=fnum(r, 40.0), window_width=fnum(r, 400.0)),
+            hd.ModalityLUTTransformation(rescale_intercept=fnum(r, -3.0), rescale_slope=fnum(r, 0.5), rescale_type='US'),
             hd.PixelMeasuresSequence(pixel_spacing=(num(r, 0.5), num(r, 0.25)), slice_thickness=num(r, 1.0),
                                      spacing_between_slices=num(r, 1.5)),
             hd.PlanePositionSequence(hd.CoordinateSystemNames.PATIENT, image_position=(num(r, 1.0), num(r, -2.0), num(r, 3.0))),
+            hd.PlanePositionSequence(hd.CoordinateSystemNames.SLIDE, image_position=(num(r, 10.0), num(r, 20.0), num(r, 0.0)),
+                                     pixel_matrix_position=(1, 1)),
             hd.PlaneOrientationSequence(hd.CoordinateSystemNames.PATIENT,
                                         image_orientation=(0.7071067811865476, 0.7071067811865475, 0.0, 0.0, 0.0, -1.0)),
             sr.TcoordContentItem(name=name, temporal_range_type=sr.TemporalRangeTypeValues.MULTIPOINT,
